@@ -64,6 +64,21 @@ func (m *machine) builtin(x *wgen.Builtin) Value {
 	case "bitcast":
 		v := m.eval(x.Args[0])
 		m.discrete(v)
+		if st := v.T.ScalarOf(); st != nil && st.S == wgen.F32 && x.T.ScalarOf() != nil && x.T.ScalarOf().S != wgen.F32 {
+			// WGSL lets an implementation ignore the sign of a zero (§14.6): the bit pattern of a
+			// float zero observed through bitcast is not determined
+			zero := false
+			if v.T.K == wgen.TScalar {
+				zero = v.B&0x7fffffff == 0
+			} else {
+				for _, c := range v.E {
+					zero = zero || c.B&0x7fffffff == 0
+				}
+			}
+			if zero {
+				m.ev.FuzzyUse++
+			}
+		}
 		return bitcastTo(v, x.T)
 	case "select":
 		f := m.eval(x.Args[0])
